@@ -8,5 +8,6 @@ MUTANTS=[
  ('trace-not-in-key', '\t\tllgoTrace,\n', ''),
  ('members-unsorted', 'sort.Slice(members, func(i, j int) bool {\n\t\treturn members[i].name < members[j].name\n\t})', '_ = sort.Slice', 0, 'cl/compile.go'),
  ('revert-cflags-in-key', '\t\t"CCFLAGS",\n\t\t"CFLAGS",\n', ''),
+ ('opt-level-flags-not-in-key', '\tif len(c.crossCompile.CCFLAGS) > 0 {\n', '\tif false {\n'),
  ('revert-sibling-files-digested', '\t\t\tif sibling := filepath.Join(cDir, e.Name()); e.Type().IsRegular() && !seen[sibling] {', '\t\t\tif sibling := filepath.Join(cDir, e.Name()); false && !seen[sibling] {'),
 ]
